@@ -24,6 +24,8 @@ TECHNIQUE += '; replay contracts of rule_call and recursive_call interpreted wit
 LEVEL_TEXT += ' Added clause: the recursive invocation inside the seed loop ends at the _results lookup (hit returned, exception raised) before anything is evaluated; the seed is stored before the first evaluation.'
 TECHNIQUE += '; SCC marking: no memoized rule on a cycle, all graphs with <= 3 edges in the quick tier'
 LEVEL_TEXT += ' Added clause: every rule on a left-recursive cycle loses memoization (a split component is reported).'
+TECHNIQUE += '; the analysis runs over every rule (= C16.R3)'
+LEVEL_TEXT += ' Added clause: rules reached only through start=, an include or a base rule are analysed too.'
 LEVEL_NOTE = 'Positions are bounded by the text length, so a strictly increasing lastpos bounds the number of iterations.'
 EXPLANATION = ('Static analysis of /repo sources, TatSu not imported. recursive_call is executed abstractly with flags and test '
                'hooks; pegen._callable_rule_ids/_is_nullable_safe and the is_nullable methods are interpreted on stand-in trees.')
